@@ -127,8 +127,9 @@ func SystemCertPool() (*CertPool, error) {
 // findVerifiedParents attempts to find certificates in s which have signed the
 // given certificate. If any candidates were rejected then errCert will be set
 // to one of them, arbitrarily, and err will contain the reason that it was
-// rejected.
-func (s *CertPool) findVerifiedParents(cert *Certificate) (parents []int, errCert *Certificate, err error) {
+// rejected. Every signature check is counted in *sigChecks; once the count
+// exceeds maxChainSignatureChecks no further candidates are examined.
+func (s *CertPool) findVerifiedParents(cert *Certificate, sigChecks *int) (parents []int, errCert *Certificate, err error) {
 	if s == nil {
 		return
 	}
@@ -142,6 +143,10 @@ func (s *CertPool) findVerifiedParents(cert *Certificate) (parents []int, errCer
 	}
 
 	for _, c := range candidates {
+		*sigChecks++
+		if *sigChecks > maxChainSignatureChecks {
+			break
+		}
 		if err = cert.CheckSignatureFrom(s.certs[c]); err == nil {
 			parents = append(parents, c)
 		} else {
